@@ -30,7 +30,9 @@ CLAIMS['C17'] = dict(
     text='Proof: tag assignment and ordering (Geo_Container.compute_tags, quantified loop invariants), global numbering '
          '(Pulse_Container.add), both addressing forms of register_source / register_load incl. all-of-object and all, '
          'and the pulse number printed by every source/load listing are postconditions of the real functions; unbounded '
-         'in objects and pulses.',
+         'in objects and pulses. In addition, independently of how the loops are written, compute_tags is executed on three objects in all eight '
+         'arrangements of untagged / symbolically tagged, and register_load on a two-object model whose junction pulse belongs to the later '
+         'object, for eight address forms (shape-bounded).',
     note='sort/sorted permutation axiom; INV_BLOCK (an object\'s pulses are container pulses) is assumed here and is the '
          'contract of compute_connections (C12); the main() slices that parse the user strings are checked with abstract '
          'strings under C15/C20 units; native sweep through main() is a bounded stand-in only',
@@ -152,7 +154,7 @@ CLAIMS['C20'] = dict(
          'field) and with callees raising whatever their contracts allow, either complete silently or return 23 after exactly one printed '
          'line; no exception escapes; well-formed values reach the constructors in the documented positions. Likewise the readers of '
          '--laplace-load-a/-b (pairing), --skin-effect-conductivity/-resistivity, --insulation-load, --geo-rotate/-translate/-scale and the '
-         'order of application (equal sort keys included), --phi, --theta, --near-field. The range test of -f is proved in IEEE-754 semantics (z3 '
+         'order of application (equal sort keys included), --phi, --theta, --near-field; Angle.angle_deg/angle_rad, which the far-field stage calls outside every handler, raise nothing for any integer count (zero and negative included). The range test of -f is proved in IEEE-754 semantics (z3 '
          'FloatingPoint: whatever passes is a finite number in (0, 1e100); nan and inf are rejected). The constructors the load readers call never divide '
          'by zero at a positive frequency (series RLC, explicit C = 0 included) and only build positive conductivities (units shared with C08). The numeric '
          'stage and the other frequency options are exercised natively only; the sweep loop runs at least once for every accepted '
